@@ -27,7 +27,7 @@ func init() {
 			{ID: "C13.R7", Text: "delivery switch: the listener is called ⇔ ¬closed, checked after the rollback-mitigation wait (an event parked in the gate when Close runs is released without being delivered)", Run: func(c *Ctx, id string) {
 				oi := observerInfo(c, id)
 				c03DeliverOAE(c, id, oi)
-				gateOAE(c, id, oi)
+				gateOAE(c, id, oi, "wait")
 			}},
 			{ID: "C13.R9", Text: "background waits are cancellable: the health checker blocks only in selects with a ctx.Done() case (same rule as C19.R2)", Run: c19r2},
 			{ID: "C13.R10", Text: "a cancel signal closes with closeWithCancel=true: the flag is raised in the branch of the wait that received the signal, before the close path runs, and is what Stream.Close receives", Run: c13r10},
@@ -246,6 +246,26 @@ func (w *World) reachableFrom(roots ...*ssa.Function) map[*ssa.Function]bool {
 		seen[n.Func] = true
 		for _, e := range n.Out {
 			stack = append(stack, e.Callee)
+		}
+		// library functions are loaded without bodies: a function value handed to one (Once.Do, AfterFunc, …) is
+		// taken to be called by it
+		if n.Func.Blocks != nil {
+			allInstrs(n.Func, func(in ssa.Instruction) {
+				cc := callOf(in)
+				if cc == nil {
+					return
+				}
+				if callee := cc.StaticCallee(); callee != nil && callee.Blocks != nil {
+					return
+				}
+				for _, a := range cc.Args {
+					if f := closureOf(a); f != nil {
+						if fn := cg.Nodes[f]; fn != nil {
+							stack = append(stack, fn)
+						}
+					}
+				}
+			})
 		}
 	}
 	return seen
